@@ -24,3 +24,7 @@ prop('C12', ['G1', 'G2', 'G5', 'K6', 'L4'], 'registry', ['histories'])
 
 prop('C15', ['E1', 'E5', 'E6', 'I2', 'A5'], 'failing callbacks', ['refcounts'])
 prop('CX1', ['I1', 'I2', 'I3', 'S3', 'A1'], 'tmp', [])
+
+prop('C05', ['F1', 'F2', 'F3', 'F4'], 'tree_map', ['functor laws'])
+prop('C10', ['F6', 'F2', 'F1'], 'transpose', ['involution'])
+prop('CX2', ['F7', 'F9', 'T6', 'K7py', 'P2py', 'K9py'], 'tmp', [])
